@@ -19,7 +19,7 @@ theorem u8_ofNat_toNat (n : Nat) (h : n < 256) : (UInt8.ofNat n).toNat = n := by
   simp [UInt8.toNat_ofNat', Nat.mod_eq_of_lt h]
 
 macro "rt_simp" : tactic => `(tactic|
-  simp (disch := first | (simp; done) | (simp; omega) | omega) only [idx_eq, rd16_eq, copyOut_eq, Slice.len,
+  simp (disch := first | (simp; done) | (simp; omega) | omega) only [idx_eq, rd16_eq, copyOut_eq, bytes_eq, from_eq,
     List.cons_append, List.nil_append, List.length_cons, List.length_nil, List.length_append,
     Nat.reduceAdd, Nat.reduceLT, Nat.reduceLeDiff, if_false, if_true, List.getD_cons_zero, List.getD_cons_succ,
     Res.bind_ok, be16_hi_lo, ne_eq, not_true_eq_false, List.drop_succ_cons, List.drop_zero, reduceIte])
